@@ -22,7 +22,7 @@ import random
 from .. import project, scenario, schemas, textgen
 from . import c14
 
-META = list("<>/%#()$") + [" ", "\t", "=", "+", "*"]
+META = list("<>/%#()$") + [" ", "\t", "=", "+", "*", ":", "\\", "?", "\x00", "\x7f", "\u2028", "é"]
 
 
 def mutate_text(rng, lines, n):
@@ -203,7 +203,8 @@ def run(chk):
     # %include arguments that cannot be opened: missing files, unknown schemes, malformed URLs, fragments
     BAD_INC = ["nosuch.conf", "foo:bar", "mailto:x", "c.co:nf", "http://[", "file:///nonexistent/zcv/x.conf", "sub/",
                "#frag", "a.conf#frag", "file://otherhost.invalid/x", "//x/y", "\\\\server\\share", "x y.conf", "%41.conf",
-               "file:", "file:///", ":", "a:", "1:2"]
+               "file:", "file:///", ":", "a:", "1:2", "a\x00b.conf", "file:///a\x00b", "\x7f", "é ü.conf", "ftp://",
+               "http://", "http:", "data:;base64,%%%", "data:", "?", "??x=1", "c:/x.conf", "file://%zz/x"]
     for arg in BAD_INC:
         for where in (0, 1):
             files = {"d/main.conf": ["# main", "%include " + arg] if where == 0 else ["%include inner.conf"],
